@@ -15,13 +15,18 @@ import (
 	"github.com/MinterTeam/minter-go-node/formula"
 )
 
-// Frozen tolerance of the closeness rule:  |got - floor(exact)| <= 1 + exact*L*2^-c12RelBits + scale*2^-c12AbsBits
+// Frozen tolerance of the closeness rule:  |got - floor(exact)| <= 1 + exact*L*2^-c12RelBits + scale*2^-c12AbsBits  (+2 for rounding the terms up)
 // where scale = supply or reserve (the factor in front of the bracket) and L = max(1, log2(1 + exact/scale)) is the size of
-// the power (a float64 exponent with relative error d turns into a relative error d*ln(power) of the power).
+// the power (a float64 exponent with relative error d turns into a relative error d*ln(power) of the power; L is 1 for sales
+// and for every purchase that less than doubles the supply/reserve).
 //
-// CALIBRATION (unchanged tree, see the counters max_rel_x2^70/* and max_abs_x2^120/* in the evidence):
+// CALIBRATION on the unchanged tree (thorough tier, seed 1, 12.2*10^6 tuples, reserve <= 2^100; quick tiers of seeds 1..6 agree):
 //
-//	see the comment at c12Calibration below.
+//	largest relative error beyond the first unit, per L:  2^-52.34 (PurchaseAmount), 2^-52.50 (PurchaseReturn), 2^-53.06 (SaleReturn), 2^-53.22 (SaleAmount)
+//	largest absolute error where that term dominates:     2^-96.2*scale (PurchaseAmount, crr=10), 2^-97.7 (SaleReturn), 2^-98.8 (PurchaseReturn), 2^-100.0 (SaleAmount)
+//	=> frozen at 2^-42 and 2^-86 (margin >= 2^10); largest observed error/tolerance 2^-10.05, largest round-trip excess/tolerance 2^-10.15.
+//
+// The counters max_rel_x2^70/*, max_abs_x2^120/*, max_err_over_tolerance_x2^20/* of every run show the same quantities.
 const (
 	c12RelBits = 42
 	c12AbsBits = 86
@@ -363,6 +368,34 @@ func c12Chain(r *rand.Rand, s, res *big.Int, crr int) []c12Amt {
 	return out
 }
 
+// c12Bracket re-derives floor <= value < floor+1 with integer arithmetic only (self-check of the reference on a sample).
+func c12Bracket(fn int, s, res *big.Int, crr int, a *big.Int, floor *big.Int) bool {
+	g := hpGcd(crr, 100)
+	var xn, xd, scale *big.Int
+	var ea, eb int
+	switch fn {
+	case BPurchaseReturn:
+		xn, xd, scale, ea, eb = new(big.Int).Add(res, a), res, s, crr/g, 100/g
+	case BPurchaseAmount:
+		xn, xd, scale, ea, eb = new(big.Int).Add(s, a), s, res, 100/g, crr/g
+	case BSaleReturn:
+		xn, xd, scale, ea, eb = new(big.Int).Sub(s, a), s, res, 100/g, crr/g
+	default:
+		xn, xd, scale, ea, eb = new(big.Int).Sub(res, a), res, s, crr/g, 100/g
+	}
+	ge := func(k *big.Int) bool { // value >= k ?
+		if fn == BPurchaseReturn || fn == BPurchaseAmount {
+			return HPCmpPowRat(xn, xd, ea, eb, new(big.Int).Add(scale, k), scale) >= 0
+		}
+		t := new(big.Int).Sub(scale, k)
+		if t.Sign() < 0 {
+			return false
+		}
+		return HPCmpPowRat(xn, xd, ea, eb, t, scale) <= 0
+	}
+	return ge(floor) && !ge(new(big.Int).Add(floor, c12One))
+}
+
 func c12CrrClass(crr int) string {
 	switch {
 	case crr == 100:
@@ -394,6 +427,7 @@ func c12RatioClass(a, base *big.Int) string {
 
 func c12Run(ctx *WorkCtx, idx int) {
 	r := Rng(ctx.Seed, "C12", idx)
+	ro := Rng(ctx.Seed, "C12-oracle-sample", idx)
 	mx, at := c12LoadMax(ctx.Res)
 	c := &c12Runner{ctx: ctx, idx: idx, nviol: c12Nviol, mx: mx}
 	for crr := 10; crr <= 100; crr++ {
@@ -441,6 +475,14 @@ func c12Run(ctx *WorkCtx, idx int) {
 				ctx.Res.Seen(fmt.Sprintf("%s/%s/%s/%s", name, region, c12CrrClass(crr), c12RatioClass(a, base)))
 				ref := HPBancor(fn, s, res, crr, a)
 				ctx.Res.Count("oracle_path/"+ref.Path, 1)
+				if !ref.Huge && ref.Path != "zero-base" && ro.Intn(64) == 0 {
+					if c12Bracket(fn, s, res, crr, a, ref.Floor) {
+						ctx.Res.Count("oracle_selfcheck_exact_bracket_ok", 1)
+					} else {
+						ctx.Res.Inconcl = append(ctx.Res.Inconcl, "reference self-check failed (floor not bracketed exactly) at "+name+" "+c12Tuple(s, res, crr, a))
+						continue
+					}
+				}
 				if ref.Exact {
 					ctx.Res.Count("exact_value_is_integer", 1)
 				}
@@ -596,7 +638,10 @@ func (c *c12Runner) measure(fn int, ref *BancorRef, diff, tol *big.Int, tuple st
 	relTerm := new(big.Int).Rsh(relDen, 53)
 	absTerm := new(big.Int).Rsh(ref.Scale, 97)
 	switch {
-	case relTerm.Cmp(new(big.Int).Lsh(absTerm, 10)) >= 0 && relTerm.Sign() > 0:
+	case relTerm.Sign() == 0 && absTerm.Sign() == 0:
+		// both error terms are below one unit (values under 2^53, scale under 2^97): a second unit of rounding, nothing to attribute
+		c.ctx.Res.Count("err/"+name+"/2 units at sub-unit error terms", 1)
+	case relTerm.Cmp(new(big.Int).Lsh(absTerm, 10)) >= 0:
 		f := c12Ratio(e, relDen)
 		c.ctx.Res.Count("err/"+name+"/rel/"+bin(f), 1)
 		if !c.wide && f > c.mx.Rel[fn] {
